@@ -196,7 +196,8 @@ func runC05(c *kit.Ctx) {
 	checkR3(c, m, ew, r3)
 	// ---- R4 NaN
 	for _, w := range []*pointWriter{nw, ew} {
-		sc := &scenario{c: c, name: "nan", f: w.F, batch: map[types.Object]bool{w.Batch: true},
+		// from the function the handlers call (the refusal may sit in a wrapper of the writer)
+		sc := &scenario{c: c, name: "nan", f: w.Entry, batch: map[types.Object]bool{w.EntryBatch: true, w.Batch: true},
 			init: kit.NewS().Set("a:nan", "T"), forbidden: isBegin, interproc: true}
 		sc.atom = func(sc *scenario, e ast.Expr) (string, bool, bool) {
 			if call, ok := ast.Unparen(e).(*ast.CallExpr); ok && len(call.Args) == 1 &&
@@ -1016,6 +1017,32 @@ func handlerFlow(c *kit.Ctx, m *storeModel, f *kit.Func, msg *types.Var, wcall *
 		}
 		return s, true
 	}
+	// a package sentinel error tested on the writer's result (`errors.Is(err, errNoChange)`,
+	// `err == errNoChange`): a third outcome, "nothing was to be written" — neither a
+	// refusal nor a committed write (that the writer returns it only when the batch is
+	// ignored is C01/R2's business)
+	st.Eval.Atom = func(e ast.Expr) (string, bool, bool) {
+		isSent := func(x ast.Expr) bool {
+			o := kit.ObjOf(info, x)
+			return o != nil && f.Prog.IsSentinelErr(o) && o.Pkg() == f.Pkg.Types
+		}
+		isErrVar := func(x ast.Expr) bool {
+			o := kit.ObjOf(info, x)
+			_, isVar := o.(*types.Var)
+			return isVar && isErrorType(o.Type()) && !isSent(x)
+		}
+		if call, ok := ast.Unparen(e).(*ast.CallExpr); ok && len(call.Args) == 2 && kit.CallIs(info, call, "errors.Is") {
+			if isErrVar(call.Args[0]) && isSent(call.Args[1]) {
+				return "sentinel", false, true
+			}
+		}
+		if a, b, op, ok := kit.CmpAtom(e); ok && (op == token.EQL || op == token.NEQ) {
+			if (isErrVar(a) && isSent(b)) || (isErrVar(b) && isSent(a)) {
+				return "sentinel", op == token.NEQ, true
+			}
+		}
+		return "", false, false
+	}
 	type ev struct {
 		call *ast.CallExpr
 		s    kit.S
@@ -1040,6 +1067,9 @@ func handlerFlow(c *kit.Ctx, m *storeModel, f *kit.Func, msg *types.Var, wcall *
 				}
 			}
 			ws := s.Get("w")
+			if ws == "pending" && s.Get("a:sentinel") == "T" {
+				return []kit.S{s.Set("w", "nochange")}
+			}
 			if ws == "failed" || ws == "pending" {
 				if nilArg {
 					ackNilNotOK = append(ackNilNotOK, ev{call, s})
@@ -1066,7 +1096,7 @@ func handlerFlow(c *kit.Ctx, m *storeModel, f *kit.Func, msg *types.Var, wcall *
 			}
 		case isRebroadcast(call):
 			ws := s.Get("w")
-			if ws == "failed" || ws == "pending" {
+			if (ws == "failed" || ws == "pending") && s.Get("a:sentinel") != "T" {
 				rebroadcastOnFail = append(rebroadcastOnFail, ev{call, s})
 			}
 			if ws == "ok" {
@@ -1093,7 +1123,7 @@ func handlerFlow(c *kit.Ctx, m *storeModel, f *kit.Func, msg *types.Var, wcall *
 			nfail := 0
 			for _, e := range res.Exits {
 				if e.State.Get("w") != "failed" {
-					if e.State.Get("w") == "pending" {
+					if e.State.Get("w") == "pending" && e.State.Get("a:sentinel") != "T" {
 						bad = "an exit is reached without testing the writer's error"
 					}
 					continue
@@ -1435,7 +1465,7 @@ func findWriterCall(m *storeModel, f *kit.Func, depth int) (*ast.CallExpr, *poin
 		}
 		isWriter := false
 		for _, w := range m.writers {
-			if w.F == cf {
+			if w.F == cf || w.Entry == cf {
 				isWriter = true
 			}
 		}
